@@ -119,7 +119,10 @@ void h_jit(void) {
 	one_case(opcode, FIX_D, FIX_S, mod, imm32, i, flags, ru0, target_off, &x, &st, m4, frac22);
 #else
 	/* complete enumeration of the 64 (dst, src) pairs; every other input stays symbolic in every case */
-#ifdef DST_ONLY
+#if defined(SRC_ONLY)
+	/* instruction without destination register (CFROUND): one obligation per source register, destination field symbolic */
+	one_case(opcode, nondet_u8() & 7, SRC_ONLY, mod, imm32, i, flags, ru0, target_off, &x, &st, m4, frac22);
+#elif defined(DST_ONLY)
 	for (uint8_t s = 0; s < 8; s++) one_case(opcode, DST_ONLY, s, mod, imm32, i, flags, ru0, target_off, &x, &st, m4, frac22);
 #else
 	for (uint8_t d = 0; d < 8; d++) for (uint8_t s = 0; s < 8; s++)
